@@ -36,6 +36,57 @@ func epochOf(n *chain.Node) uint64 {
 	return uint64(e)
 }
 
+// validatorPreconditionFails mirrors the scheduler's validator election on the committed state of n
+// for the epoch that the next block starts (if it starts one): true if fewer than MinValidators
+// validators could be elected, i.e. the documented precondition of C10 ("enough stake-eligible
+// validators remain to elect a validator set") does not hold for the next block.
+func validatorPreconditionFails(n *chain.Node) bool {
+	if n.Height == 0 {
+		return false
+	}
+	t := n.Tree()
+	defer t.Close()
+	bs := beaconState.NewImmutableState(t)
+	f, err := bs.GetFutureEpoch(chain.Ctx)
+	if err != nil || f == nil || f.Height != n.Height+1 {
+		return false // the next block does not elect
+	}
+	epoch := f.Epoch
+	rs := registryState.NewImmutableState(t)
+	ss := stakingState.NewImmutableState(t)
+	params, err := schedulerState.NewImmutableState(t).ConsensusParameters(chain.Ctx)
+	if err != nil {
+		return false
+	}
+	thresholds, _ := ss.Thresholds(chain.Ctx)
+	nodes, _ := rs.Nodes(chain.Ctx)
+	perEntity := map[signature.PublicKey]int{}
+	elected := 0
+	for _, nd := range nodes {
+		if nd.IsExpired(epoch) || !nd.HasRoles(node.RoleValidator) {
+			continue
+		}
+		if status, err := rs.NodeStatus(chain.Ctx, nd.ID); err == nil && status.IsFrozen() {
+			continue
+		}
+		if !params.DebugBypassStake {
+			acct, err := ss.Account(chain.Ctx, staking.NewAddress(nd.EntityID))
+			if err != nil || acct.Escrow.CheckStakeClaims(thresholds) != nil {
+				continue
+			}
+		}
+		if perEntity[nd.EntityID] >= params.MaxValidatorsPerEntity {
+			continue
+		}
+		perEntity[nd.EntityID]++
+		elected++
+	}
+	if elected > params.MaxValidators {
+		elected = params.MaxValidators
+	}
+	return elected == 0 || elected < params.MinValidators
+}
+
 // electionInvariants recomputes eligibility, limits and ordering from registry
 // and staking state and compares with the validator set the scheduler recorded
 // and with the set handed to the consensus engine.
@@ -607,18 +658,27 @@ func runC14(r *ev.Run) {
 		fmt.Println("replay: property held")
 		os.Exit(0)
 	}
+	// thorough tier (time budget): every configuration at the quick depth first, then the deeper level
+	passDepths := []int{depth}
+	if depth > 2 {
+		passDepths = []int{2, depth}
+	}
+	for pi, pdepth := range passDepths {
 	for vi, opts := range variants {
 		w, err := newWorld(opts)
 		if err != nil {
 			// a genesis whose validators cannot be elected is outside the property (precondition)
-			r.Add("genesis_rejected_by_sanity_check", 1)
+			if pi == 0 {
+				r.Add("genesis_rejected_by_sanity_check", 1)
+			}
 			continue
 		}
 		alpha := mkAlpha(w)
 		frontier := [][]int{{}}
 		seen := map[string]bool{}
+		statesBefore := 0
 		var mu sync.Mutex
-		for level := 1; level <= depth && len(frontier) > 0; level++ {
+		for level := 1; level <= pdepth && len(frontier) > 0; level++ {
 			var jobs [][]int
 			for _, h := range frontier {
 				for li := range alpha {
@@ -662,8 +722,12 @@ func runC14(r *ev.Run) {
 				}
 			})
 			frontier = next
+			if pi > 0 && level == passDepths[pi-1] {
+				statesBefore = len(seen)
+			}
 		}
-		r.Add("states", int64(len(seen)))
+		r.Add("states", int64(len(seen)-statesBefore))
+	}
 	}
 	r.Set("genesis_variants", len(variants))
 	r.Set("depth", depth)
